@@ -861,12 +861,12 @@ class quantized_linear(base_quantizer.BaseQuantizer):
     self._keep_negative = keep_negative
     self._use_stochastic_rounding = use_stochastic_rounding
     self._scale_axis = scale_axis
-    self._use_variables = use_variables
 
     # Set modifyable attributes
     self.alpha = alpha
     self.qnoise_factor = qnoise_factor
     self.symmetric = symmetric
+    self.use_variables = use_variables
 
     # Set default quantization scale
     self.quantization_scale = self.default_quantization_scale
@@ -917,6 +917,12 @@ class quantized_linear(base_quantizer.BaseQuantizer):
   @property
   def use_variables(self):
     return self._use_variables
+
+  @use_variables.setter
+  def use_variables(self, use_variables):
+    # Settable as in the other quantizers with a qnoise_factor: it is read when
+    # the quantizer is built, and QNoiseScheduler turns it on before training.
+    self._use_variables = use_variables
 
   @property
   def scale(self):
